@@ -144,6 +144,30 @@ func mergeProps(a, b []string) []string {
 }
 
 func (x *Exec) ghostAssign(lhs, rhs string, sc specCtx, st *State, env *Env) {
+	// range form: g_name[lo:hi] = expr   (expr may mention at_, the index being assigned)
+	if i := strings.Index(lhs, "["); i >= 0 && len(splitTop(lhs[i+1:strings.LastIndex(lhs, "]")], ':')) == 2 {
+		name := strings.TrimSpace(lhs[:i])
+		parts := splitTop(lhs[i+1:strings.LastIndex(lhs, "]")], ':')
+		lo := x.evalSpecValue(parts[0], sc, st, env).(Scalar)
+		hi := x.evalSpecValue(parts[1], sc, st, env).(Scalar)
+		p := "ghost:" + name
+		cur, ok := st.vars[p].(Scalar)
+		if !ok {
+			x.abort("ghost map %s not initialised", name)
+		}
+		nm := x.fc.fresh(name, cur.TI.sort())
+		x.fc.n++
+		a := fmt.Sprintf("at!%d", x.fc.n)
+		x.atStack = append(x.atStack, a)
+		x.binders++
+		ev := x.evalSpecValue(rhs, sc, st, env).(Scalar)
+		x.binders--
+		x.atStack = x.atStack[:len(x.atStack)-1]
+		x.fc.assume("true", fmt.Sprintf("(forall ((%s Int)) (! (= (select %s %s) (ite (and (<= %s %s) (< %s %s)) %s (select %s %s))) :pattern ((select %s %s))))",
+			a, nm, a, lo.T, a, a, hi.T, ev.T, cur.T, a, nm, a))
+		st.vars[p] = Scalar{nm, cur.TI}
+		return
+	}
 	rv := x.evalSpecValue(rhs, sc, st, env)
 	// lhs: g_name or g_name[idx]
 	if i := strings.Index(lhs, "["); i >= 0 {
@@ -937,9 +961,11 @@ func (x *Exec) execFor(s *ast.ForStmt, lab *ast.LabeledStmt, st *State, env *Env
 	x.havocLoop(hst, env, ef)
 	defer func() { x.loopFrames = x.loopFrames[:len(x.loopFrames)-1] }()
 	// 3. assume invariant
+	var headTerms []string
 	if spec != nil {
 		for _, cl := range spec.Inv {
 			t := x.evalClause(cl, sc, hst, env)
+			headTerms = append(headTerms, t)
 			x.fc.assume(hst.pc, t)
 		}
 	}
@@ -964,26 +990,24 @@ func (x *Exec) execFor(s *ast.ForStmt, lab *ast.LabeledStmt, st *State, env *Env
 	if dec0 != "" {
 		x.fc.oblige("dec.bound", lname, mergeProps(x.props, spec.Dec.Props), x.pos(s.Pos()), bodySt.pc, app(">=", dec0, "0"), "variant non-negative: "+spec.Dec.Text)
 	}
-	// 5. body
+	// 5. body; the invariant is re-checked on every path that reaches the loop end
+	// (a clause whose term is unchanged on a path is preserved syntactically)
 	bo := x.execBlock(s.Body.List, bodySt, env)
-	next := x.merge(append(bo.cont[s], bo.normal))
+	paths := append(append([]*State{}, bo.cont[s]...), bo.normal)
 	delete(bo.cont, s)
-	if !dead(next) && s.Post != nil {
-		next = x.execStmt(s.Post, next, env).normal
-	}
-	if !dead(next) {
-		if spec != nil {
-			for i, cl := range spec.Inv {
-				t := x.evalClause(cl, sc, next, env)
-				x.fc.oblige("inv.pres", lname+"."+clauseLabel(cl, i), mergeProps(x.props, cl.Props), x.pos(s.Pos()), next.pc, t, cl.Text)
-			}
+	var ends []*State
+	for _, ps := range paths {
+		if dead(ps) {
+			continue
 		}
-		x.checkAutoArr(next, lname, s.Pos())
-		if dec0 != "" {
-			v := x.evalSpecValue(spec.Dec.Text, sc, next, env)
-			x.fc.oblige("dec.step", lname, mergeProps(x.props, spec.Dec.Props), x.pos(s.Pos()), next.pc, app("<", x.toInt(v), dec0), "variant decreases: "+spec.Dec.Text)
+		if s.Post != nil {
+			ps = x.execStmt1(s.Post, ps.clone(), env).normal
+		}
+		if !dead(ps) {
+			ends = append(ends, ps)
 		}
 	}
+	x.checkLoopEnd(ends, spec, headTerms, sc, env, lname, s.Pos(), dec0)
 	if spec == nil || spec.Dec == nil {
 		x.noTerm = append(x.noTerm, fmt.Sprintf("%s loop %d", x.fc.Name, ord))
 	}
@@ -1098,9 +1122,11 @@ func (x *Exec) execRange(s *ast.RangeStmt, lab *ast.LabeledStmt, st *State, env 
 	idx := x.fc.fresh("idx", "Int")
 	x.fc.assume("true", fmt.Sprintf("(and (<= 0 %s) (<= %s %s))", idx, idx, rv.Len))
 	x.idxStack[len(x.idxStack)-1] = idx
+	var headTerms []string
 	if spec != nil {
 		for _, cl := range spec.Inv {
 			t := x.evalClause(cl, sc, hst, env)
+			headTerms = append(headTerms, t)
 			x.fc.assume(hst.pc, t)
 		}
 	}
@@ -1117,20 +1143,16 @@ func (x *Exec) execRange(s *ast.RangeStmt, lab *ast.LabeledStmt, st *State, env 
 		x.store(bodySt, valLV, ev, s.Pos())
 	}
 	bo := x.execBlock(s.Body.List, bodySt, env)
-	next := x.merge(append(bo.cont[s], bo.normal))
+	paths := append(append([]*State{}, bo.cont[s]...), bo.normal)
 	delete(bo.cont, s)
-	if !dead(next) {
-		x.idxStack[len(x.idxStack)-1] = app("+", idx, "1")
-		if spec != nil {
-			for i, cl := range spec.Inv {
-				t := x.evalClause(cl, sc, next, env)
-				x.fc.oblige("inv.pres", lname+"."+clauseLabel(cl, i), mergeProps(x.props, cl.Props), x.pos(s.Pos()), next.pc, t, cl.Text)
-			}
+	var ends []*State
+	for _, ps := range paths {
+		if !dead(ps) {
+			ends = append(ends, ps)
 		}
 	}
-	if !dead(next) {
-		x.checkAutoArr(next, lname, s.Pos())
-	}
+	x.idxStack[len(x.idxStack)-1] = app("+", idx, "1")
+	x.checkLoopEnd(ends, spec, headTerms, sc, env, lname, s.Pos(), "")
 	x.idxStack = x.idxStack[:len(x.idxStack)-1]
 	exits := append(bo.brk[s], exitSt)
 	delete(bo.brk, s)
@@ -1174,4 +1196,40 @@ func sortedObjs(m map[types.Object]bool) []types.Object {
 		return out[i].Name() < out[j].Name()
 	})
 	return out
+}
+
+// checkLoopEnd checks invariant preservation, the automatic array invariant and
+// the variant on every path that reaches the end of the loop body.
+func (x *Exec) checkLoopEnd(ends []*State, spec *LoopSpec, headTerms []string, sc specCtx, env *Env, lname string, p token.Pos, dec0 string) {
+	if spec != nil {
+		for i, cl := range spec.Inv {
+			emitted := 0
+			for k, ps := range ends {
+				t := x.evalClause(cl, sc, ps, env)
+				if i < len(headTerms) && t == headTerms[i] {
+					continue // unchanged on this path: literally the assumed clause
+				}
+				lbl := lname + "." + clauseLabel(cl, i)
+				if len(ends) > 1 {
+					lbl += fmt.Sprintf(".p%d", k)
+				}
+				x.fc.oblige("inv.pres", lbl, mergeProps(x.props, cl.Props), x.pos(p), ps.pc, t, cl.Text)
+				emitted++
+			}
+			if emitted == 0 {
+				x.fc.oblige("inv.pres", lname+"."+clauseLabel(cl, i), mergeProps(x.props, cl.Props), x.pos(p), "true", "true", cl.Text+"  (unchanged on every path)")
+			}
+		}
+	}
+	for k, ps := range ends {
+		x.checkAutoArr(ps, lname, p)
+		if dec0 != "" {
+			v := x.evalSpecValue(spec.Dec.Text, sc, ps, env)
+			lbl := lname
+			if len(ends) > 1 {
+				lbl += fmt.Sprintf(".p%d", k)
+			}
+			x.fc.oblige("dec.step", lbl, mergeProps(x.props, spec.Dec.Props), x.pos(p), ps.pc, app("<", x.toInt(v), dec0), "variant decreases: "+spec.Dec.Text)
+		}
+	}
 }
